@@ -358,7 +358,9 @@ def run(tier):
         del hist
     judge.run(random_requests(info, params["random"], params["random_steps"]))
 
-    damaged = selftest(judge.candidates, params["tlc_timeout"])
+    # the self-test needs an accepted trace; when the implementation is so wrong that none is
+    # accepted, the rejections above are the verdict and must not be masked by a tool error
+    damaged = selftest(judge.candidates, params["tlc_timeout"]) if (judge.candidates or not v.findings) else {"skipped": "no accepted trace (violations reported)"}
 
     v.coverage = {
         "states": states,
